@@ -368,7 +368,7 @@ def main():
     s_violations = []
     if P.get("bounded_scenarios"):
         import replay
-        seeds = [seed] if tier == "quick" else [seed + i for i in range(4)]
+        seeds = [seed] if tier == "quick" else [seed + i for i in range(8)]
         for sd in seeds:
             hits, note = replay.run_scenarios(pid, sd)
             if "does not build" in note:
